@@ -175,14 +175,15 @@ def run(pid, tier):
     code, unknown, known = vlib.verdict(pid, viols)
     if rep["ndivergent"]:
         log("[C04] NOTE: %d real verdicts differ from the code-shaped StepRaw / StepSem of CommitTx.tla (the "
-            "specification needs updating; not a property violation): %s" % (rep["ndivergent"], json.dumps(rep["divergence_kinds"])))
+            "specification needs updating; not a property violation): %s" % (rep["ndivergent"], json.dumps(rep["divergence_kinds"] + rep["base_divergence_kinds"])))
 
     samples = [{"base": s["name"], "commitment_type": s["ct"], "mutation": _mut_name(s), "submitted_transaction": s["tx"],
                 "reference_rules_broken": s["rules"], "real": s["resp"]} for s in rep["sample"]]
     cov = {
         "legs": {
             "A_model": {"bases": a["matrix"]["bases"], "cases": a["matrix"]["cases"], "states": a["states"],
-                        "distinct": a["distinct"], "violated": a["violated"], "wall_s": round(a["wall_s"], 1)},
+                        "distinct": a["distinct"], "violated": sorted(set(a["violated"])),
+                        "wall_s": round(a["wall_s"], 1)},
             "B_real_entry_points": {
                 "bases": rep["bases"], "bases_refused_by_setup_channel": rep["setup_refused"],
                 "requests_not_made_for_them": rep["skipped"], "raw_requests_judged": rep["raw"], "semantic_accepted": rep["sem_ok"],
@@ -191,7 +192,8 @@ def run(pid, tier):
                 "raw_granted_by_mutation": rep["granted_kinds"], "reference_must_refuse": rep["must_refuse"],
                 "real_verdict_tags": rep["real_tags"], "violating_records": rep["nviolations"],
                 "impl_stricter": rep["nstricter"], "impl_stricter_kinds": rep["stricter_kinds"],
-                "spec_divergences": rep["ndivergent"], "spec_divergence_kinds": rep["divergence_kinds"],
+                "spec_divergences": rep["ndivergent"],
+                "spec_divergence_kinds": rep["divergence_kinds"] + rep["base_divergence_kinds"],
                 "sole_reason_refusals_per_rule": rep["sole"], "rules_never_sole_reason": rep["uncovered"],
                 "panics_recorded": runb.get("panics"), "tlc_states": b["distinct"], "wall_s": round(b["wall_s"], 1)},
         },
